@@ -215,6 +215,16 @@ fn is_prefix(a: &[NEvent], b: &[NEvent]) -> bool {
 
 /// Decide natively whether `case` violates its property.  Returns Some(description) if it does.
 pub fn judge(case: &Case) -> Result<Option<String>, String> {
+    if case.note.starts_with("nondeterministic-compile") {
+        let first = subject::compiled_rendering_w(case.backend, &case.program, case.level, case.width);
+        for i in 0..24 {
+            let again = subject::compiled_rendering_w(case.backend, &case.program, case.level, case.width);
+            if again != first {
+                return Ok(Some(format!("compilation {} of the same (source, width, level) rendered differently from the first:\n--- first\n{}\n--- other\n{}", i + 2, first.unwrap_or_default().lines().take(40).collect::<Vec<_>>().join("\n"), again.unwrap_or_default().lines().take(40).collect::<Vec<_>>().join("\n"))));
+            }
+        }
+        return Ok(None);
+    }
     let r = run_ref_native(case, 50_000_000);
     let s = run_native(case);
     let ret = match &s.ret {
